@@ -47,6 +47,87 @@ def first_session(w, rec):
     return 1 if o['st'] == 'OPENSENT' else None
 
 
+# ----------------------------------------------------------------------------- C03 (fine-grained time)
+UNIT = 3000            # time units per second: H/3 seconds is a whole number of units for every whole hold time H
+
+
+def due_units(w):
+    """units until the next pending reactor call (None if nothing is pending)"""
+    pc = [dc for dc in w.pending_calls()]
+    if not pc:
+        return None
+    return max(0, int(round((min(dc.time for dc in pc) - W.now) / w.tick)))
+
+
+def c03j_run(tid, wcfg, cfgline, seed):
+    """One random schedule with a resolution of 1/3000 s: the peer's messages arrive at arbitrary instants, in
+    particular just before / exactly at / just after the instants at which a keepalive or the hold timer is due
+    (both orders at the same instant).  Every timer expiry and every stretch of time is its own recorded step."""
+    rnd = random.Random(seed)
+    w = World(wcfg)
+    rec = R.Recorder(w, tid, cfgline)
+    c = first_session(w, rec)
+    if c is None:
+        return rec.lines
+    ph = rnd.choice([0, 3, 4, 7, 10, 30, 45, 90, 180, 65535])
+    o = rec.step({'k': 'msg', 'c': c, 'm': 'OPEN', 'h': ph}, c)
+    if o['st'] != 'OPENCONFIRM':
+        return rec.lines
+    H = min(wcfg['hold'], ph)
+
+    def advance(dt, deliver_first=None):
+        while dt > 0 and rec.pre['st'] in ('OPENCONFIRM', 'ESTABLISHED'):
+            du = due_units(w)
+            d = dt if du is None else min(dt, du)
+            if d > 0:
+                rec.step({'k': 'tick', 'c': 0, 'n': d}, 0)
+                dt -= d
+            if w.due_calls():
+                if dt == 0 and deliver_first is not None:
+                    deliver_first()
+                    deliver_first = None
+                while w.due_calls() and rec.pre['st'] in ('OPENCONFIRM', 'ESTABLISHED'):
+                    rec.step({'k': 'firedue', 'c': 0}, 0)
+            elif d == 0:
+                break
+        if deliver_first is not None and rec.pre['st'] in ('OPENCONFIRM', 'ESTABLISHED'):
+            deliver_first()
+
+    def deliver(name):
+        def f():
+            if rec.pre['trcs'] == 'open':
+                rec.step({'k': 'msg', 'c': c, 'm': name}, c)
+        return f
+    advance(rnd.randint(0, UNIT), deliver('KA'))
+    for _ in range(rnd.randint(10, 40)):
+        if rec.pre['st'] not in ('OPENCONFIRM', 'ESTABLISHED'):
+            break
+        du = due_units(w)
+        x = rnd.random()
+        if x < 0.35 and du:
+            dt = max(1, du + rnd.choice([-1, 0, 0, 1]))
+        elif x < 0.55 and H > 0:
+            dt = max(1, rnd.choice([H * UNIT // 3, H * UNIT, 2 * H * UNIT // 3]) + rnd.choice([-1, 0, 1]))
+        elif x < 0.65:
+            dt = rnd.randint(1, 3)
+        else:
+            dt = rnd.randint(1, max(2, (H if H else 60) * UNIT // 2))
+        msg = rnd.choice(['KA', 'KA', 'UPD', 'RR', None, None])
+        advance(dt, deliver(msg) if msg else None)
+    return rec.lines
+
+
+def c03j_jobs(tier, seed):
+    jobs = []
+    n = 0
+    for hold in (0, 3, 4, 10, 45, 90, 180):
+        for _ in range(40 if tier == 'quick' else 1500):
+            wcfg = dict(tick=1.0 / UNIT, tnum=1, tden=UNIT, crt=20, idle=20, hold=hold, las=65001, ras=65002)
+            jobs.append(('c03j', wcfg, seed * 1000003 + n))
+            n += 1
+    return jobs
+
+
 # ----------------------------------------------------------------------------- C05
 def open_variants(ras):
     """(name, as2, as4, hold, caps, version, each, acc, esub)  acc: 1 accept, 2 reject with OPEN error subcode esub"""
@@ -257,6 +338,13 @@ def fuzz_inputs(repo, tier, seed):
         head = [x for x in out if len(x[1]) < 600]
         rnd.shuffle(head)
         out = head[:2500]
+    # TLC-enumerated grids of spec/WireTlv.tla: one capability / attribute / MP NLRI of every code x length x body pattern
+    import check_decoders
+    for fam, typ, cls in (('capgrid', 1, 'FUZZ_OPEN'), ('attrgrid', 2, 'FUZZ_UPD'), ('mpgrid', 2, 'FUZZ_UPD')):
+        vecs = check_decoders.gen(fam, 1)['vecs']
+        step = 1 if tier == 'thorough' or fam == 'capgrid' else 6
+        for ep, hx in vecs[(seed % step)::step]:
+            out.append((cls, wire.frame(typ, bytes.fromhex(hx))))
     return out
 
 
@@ -421,6 +509,9 @@ def run_jobs(args):
                 _, cc, hist, final = job
                 wcfg = dict(tick=10.0, crt=20, idle=20, **cc)
                 lines = c05_run(tid, wcfg, cfgline_fn(wcfg), hist, final)
+            elif job[0] == 'c03j':
+                _, wcfg, sd = job
+                lines = c03j_run(tid, wcfg, cfgline_fn(wcfg), sd)
             elif job[0] == 'c16':
                 _, cc, state, rule, method, cred, bname, body, rq = job
                 wcfg = dict(tick=10.0, crt=20, idle=20, **cc)
